@@ -137,8 +137,13 @@ class InitMethod(MethodDescriptor):
                     _inplace=True,
                 )
 
-            if instance_metadata.post_init:
-                instance_metadata.post_init(self)
+            # Look up `__post_init__` on the instance's class, so that overrides
+            # in subclasses that are not themselves spec-classes are honoured.
+            post_init = getattr(
+                self.__class__, "__post_init__", instance_metadata.post_init
+            )
+            if post_init:
+                post_init(self)
 
             self.__delattr__(
                 "__spec_class_initializing__", force=True, skip_invalidation=True
